@@ -71,7 +71,11 @@ def showClient (c : Client) : String :=
     else some (t.tok ++ "{" ++ encRes (sortHeld ct.held) ++ "}")
   if parts.isEmpty then "none" else " ".intercalate parts
 
-def showSys (y : Sys) : String := s!"S:{showClient y.sc} D:{showClient y.dc}"
+def showLog (l : List (Ty × Nat × Nat)) : String :=
+  if l.isEmpty then "-" else ",".intercalate (l.map fun e => s!"{e.1.tok}/{e.2.1}/{e.2.2}")
+
+/-- What the two clients hold, and every response delivered to them during the op. -/
+def showSys (y : Sys) : String := s!"S:{showClient y.sc} D:{showClient y.dc} | s={showLog y.slog} d={showLog y.dlog}"
 
 def normClient (c : Client) : Client :=
   let tbl := Ty.all.map (fun t => (t, c t))
@@ -138,7 +142,7 @@ def stepD (ds : DState) (toks : List String) : DState × String :=
     match Ty.ofTok ty with
     | none => (ds, "bad-op")
     | some t =>
-      let y := normSys (IstioModel.C03.step ds.sys (.subx t (decList nm) (flags.contains 'n') (flags.contains 'e')))
+      let y := normSys (IstioModel.C03.step ds.sys (.subx t (decList nm) (flags.contains 'n') (flags.contains 'e') (flags.contains 'x')))
       ({ ds with sys := y }, showSys y)
   | ["widx", ws] =>
     -- name:alias:onNode:ver,...  (sorted by name by the harness)
